@@ -168,7 +168,7 @@ def overlapping(ctx, rng):
     run_case(ctx, ["overlapping writes history"], scen)
 
 
-NAMES = ["Ada", "AxiDraw 7", "  padded  ", "x" * 16, "north-east", "a b c", "Zed ", " Q9", "sixteen chars ok!", "UPPER lower",
+NAMES = ["MyQT,1", "QT,QT,x", "aST,b", "QT,", "x,QT,y,QT,", "Ada", "AxiDraw 7", "  padded  ", "x" * 16, "north-east", "a b c", "Zed ", " Q9", "sixteen chars ok!", "UPPER lower",
          "tab\tin", "n3w"]
 
 
